@@ -4,7 +4,7 @@ Produces query *text*; features of every generated query are counted in ``featur
 feature class makes a run inconclusive instead of silently held."""
 from liquer.parser import encode_token
 
-TEXTS = ["a", "B", "x y", "a-b", "a/b", "~", "~~x", "%41", "50%", "a+b", "é€", "http://x.y/z?q=1", "https://u", "file://f",
+TEXTS = ["\ufeffbom", "a", "B", "x y", "a-b", "a/b", "~", "~~x", "%41", "50%", "a+b", "é€", "http://x.y/z?q=1", "https://u", "file://f",
          "://", "-1", "--", "", "~E", "~X~", "a.b", "_", "1e3", "None", "true", "t", "0"]
 NONCANON = ["%41", "a%42c", "~/", "x~/y", "~1", "~9z", "%7E", "%2D", "A+B", "%20", "%c3%a9"]
 NAMES = ["v1", "v2", "tag"]
